@@ -21,7 +21,7 @@ CHECKS = {
     'C20': ('Moment', 'TLC checks the transcribed _delay against Occ(spec) (Computable, Lands, NotFurther) on 126 specifications x 4384 instants of a 3-year calendar (the domain of accepted specifications is taken from the real compliance rule_10 over 162 MOMENT shapes), and the firing model MomentFire (FireTargets, BootFires, BootOnce, Armed, Recurs); the real _delay under an injected clock for every/sampled (spec, instant) pair and the real defer/periodics/complete with the virtual reactor clock for every transition of the firing model are validated by TLC; the fires-once defect of defer/complete was repaired (commit 37363f0) after the repair had been model-checked as the rearm variant of MomentFire', '5.C20'),
     'C15': ('Version', 'TLC checks the transcribed comparison operators / newer() against the lexicographic order on all 729 version pairs, and the transcribed _diff/build against the declarative Scheduled(a) over engines x persisted version lists x bump choices at the three levels; the real operators on 8 real Version subclasses for every pair and the real version.current + schedule.build (+ db.versions() on a real shelve DB, a part of it in quick; engines with value-less state vectors) for every enumerated case are validated by TLC', '5.C15'),
     'C17': ('Search', 'TLC checks Denote(Scrub(e)) = Denote(e) on all 65,641 run-id expressions and the transcribed shelve find/facet against the declarative Match/FindOK/Pages/FacetOK over small databases (run ids shifted so that digit counts differ) x constraint combinations x pages; the real _scrub (3 input forms) and the real shelve search + fe.api wrappers on real shelve files are executed for the TLC-generated cases and validated by TLC', '5.C17'),
-    'C06': ('Store', 'TLC exhaustive on Store.tla (catalogue tables, prime keys, blobs and a reference dictionary; updates, loads at exact/absent/future runs, removes, version bumps at three levels, target additions, close/reopen over prefix-related names) with LoadOK; every transition of the small instance + pseudo-random depth-25 histories executed on real shelve files through the in-memory client/server bridge (real Interface._update/_load, Connector, comms.Worker); TLC validates every load result against the reference dictionary; loaded objects are edited in place by the harness (caller's copy), some histories store 70 KiB values that differ only in the tail', '5.C06'),
+    'C06': ('Store', 'TLC exhaustive on Store.tla (catalogue tables, prime keys, blobs and a reference dictionary; updates, loads at exact/absent/future runs, removes, version bumps at three levels, target additions, close/reopen over prefix-related names) with LoadOK; every transition of the small instance + pseudo-random depth-25 histories executed on real shelve files through the in-memory client/server bridge (real Interface._update/_load, Connector, comms.Worker); TLC validates every load result against the reference dictionary; loaded objects are edited in place by the harness (the copy of the caller), some histories store 70 KiB values that differ only in the tail', '5.C06'),
     'C07': ('StoreCrash', 'TLC exhaustive on StoreCrash.tla (an update as six separately enabled steps, Crash enabled between any two, reopen, purge; 12 kill sites; MoveFails: the rename into the store fails and the process lives on; StagedLost: the staged file vanishes before the server handles it; a kill inside the transfer of the bytes) with NamedByDigest, NoDangling, NoveltyExact, SingleCopy, and the wrong design (record before move) required to fail; histories ending in every kill site are executed in forked child processes on real files (os._exit injected at the chosen step), the parent reopens the database from the files; TLC validates the directory listing with recomputed digests, the prime table and the reported novelty flags', '5.C07'),
     'C08': ('Store', 'same module as C06 with the clauses Bijective, Survives, Resolves, NextRun, ExactNames (remove / reset / trace over several tasks / the worm removal tool incl. run 0 touch exactly the entries with those exact names) on real shelve files, tables and indices logged after each operation and after reopen', '5.C08'),
     'C09': ('Dag', 'TLC runs the transcription of dag.Construct (every _parents iteration order) on the bounded program domain and checks every clause against the declarative graph; every program (incl. same-named producers in different packages and names that are prefixes of one another) is materialised as an engine, the real Construct runs on it twice (factory order reversed) and TLC validates the record with the same clauses', '5.C09'),
